@@ -202,7 +202,13 @@ impl Actor for Probe {
     }
     async fn handle(&self, _m: ActorRef<Wire>, m: Wire, _: &mut ()) -> Result<(), ActorProcessingErr> {
         match m {
-            Wire::Note(n, s) => self.log.lock().unwrap().push(format!("{}:note {n} {s}", self.tag)),
+            Wire::Note(n, s) => {
+                self.log.lock().unwrap().push(format!("{}:note {n} {s}", self.tag));
+                if n == 666 {
+                    // the actor ends itself on this note
+                    _m.stop(None);
+                }
+            }
             Wire::Ask(n, reply) => {
                 self.log.lock().unwrap().push(format!("{}:ask {n}", self.tag));
                 if self.reply_delay_ms > 0 && n % 2 == 0 {
@@ -789,6 +795,21 @@ fn c18_body(d: Dials) -> vsched::Body {
         } else if sa[0].0 != sb[0].0 {
             bad.push(format!("the nodes kept different physical connections: a keeps {}, b keeps {}", sa[0].0, sb[0].0));
         }
+        // the same among ALL session actors of each node, listed or not
+        for n in [&t.a, &t.b] {
+            let mut alive = 0usize;
+            for k in n.server.get_children() {
+                if k.get_status() == ActorStatus::Running {
+                    let r: ActorRef<NodeSessionMessage> = k.clone().into();
+                    if let Ok(ractor::rpc::CallResult::Success(true)) = r.call(NodeSessionMessage::GetAuthenticationState, Some(Duration::from_millis(20))).await {
+                        alive += 1;
+                    }
+                }
+            }
+            if alive != 1 {
+                bad.push(format!("node {} has {alive} running session actors that consider themselves authenticated, expected exactly one", n.name));
+            }
+        }
         let ev = t.events.lock().unwrap().clone();
         // exactly one ready session per peer is left standing (a link that became ready and was then
         // superseded by the election must have been reported as disconnected)
@@ -912,6 +933,11 @@ pub enum Scripted {
     LegacyTwoDials,
     /// the same with a repeated non-zero id
     RepeatedIdTwoDials,
+    /// two dials with the same id that finish their handshakes in the order they were opened
+    LegacyTwoDialsInOrder,
+    RepeatedIdTwoDialsInOrder,
+    /// three dials with the same id, finishing in the order 2, 1, 3
+    LegacyThreeDials,
 }
 
 /// one real node, the peer played by the harness (it knows the cookie and controls the connection ids)
@@ -945,6 +971,41 @@ fn c18_scripted_body(kind: Scripted) -> vsched::Body {
                 stalled.push(h);
                 honest_pipes = vec!["pipe-honest"];
             }
+            Scripted::LegacyTwoDialsInOrder | Scripted::RepeatedIdTwoDialsInOrder => {
+                let id = if kind == Scripted::LegacyTwoDialsInOrder { 0 } else { 9 };
+                let mut first = open("pipe-first");
+                scripted_name(&mut first, "b@host", id).await;
+                let ok1 = scripted_finish(&mut first, COOKIE).await;
+                vsched::quiesce();
+                let mut second = open("pipe-second");
+                scripted_name(&mut second, "b@host", id).await;
+                let ok2 = scripted_finish(&mut second, COOKIE).await;
+                if !ok1 && !ok2 {
+                    bad.push("neither of the honest peer's two dials was acknowledged".to_string());
+                }
+                stalled.push(first);
+                stalled.push(second);
+                honest_pipes = vec!["pipe-first", "pipe-second"];
+            }
+            Scripted::LegacyThreeDials => {
+                let mut ps = Vec::new();
+                for l in ["pipe-first", "pipe-second", "pipe-third"] {
+                    let mut p = open(l);
+                    scripted_name(&mut p, "b@host", 0).await;
+                    vsched::quiesce();
+                    ps.push(p);
+                }
+                let mut any = false;
+                for i in [1usize, 0, 2] {
+                    any |= scripted_finish(&mut ps[i], COOKIE).await;
+                    vsched::quiesce();
+                }
+                if !any {
+                    bad.push("none of the honest peer's three dials was acknowledged".to_string());
+                }
+                stalled.extend(ps);
+                honest_pipes = vec!["pipe-first", "pipe-second", "pipe-third"];
+            }
             Scripted::LegacyTwoDials | Scripted::RepeatedIdTwoDials => {
                 let id = if kind == Scripted::LegacyTwoDials { 0 } else { 9 };
                 let mut first = open("pipe-first");
@@ -977,7 +1038,20 @@ fn c18_scripted_body(kind: Scripted) -> vsched::Body {
                 }
             }
         }
+        // ... and among ALL session actors of the node, listed or not
+        let mut alive_authenticated = 0usize;
+        for k in &kids {
+            if k.get_status() == ActorStatus::Running {
+                let r: ActorRef<NodeSessionMessage> = k.clone().into();
+                if let Ok(ractor::rpc::CallResult::Success(true)) = r.call(NodeSessionMessage::GetAuthenticationState, Some(Duration::from_millis(20))).await {
+                    alive_authenticated += 1;
+                }
+            }
+        }
         let ev = events.lock().unwrap().clone();
+        if alive_authenticated != 1 {
+            bad.push(format!("{alive_authenticated} running session actors consider themselves authenticated for the peer (listed: {standing:?}), expected exactly one: the others must have been closed; events {ev:?}"));
+        }
         if standing.len() != 1 {
             bad.push(format!("{} authenticated sessions for the peer are left standing ({standing:?}), expected exactly one; events {ev:?}", standing.len()));
         } else if !honest_pipes.contains(&standing[0].0.as_str()) {
@@ -1021,7 +1095,15 @@ pub fn c18_units(thorough: bool) -> Vec<Unit> {
     }
     // the peer played by the harness: repeated / legacy connection ids; the tables are hash maps, so several
     // hash seeds are run
-    for kind in [Scripted::SameNonceSquatters(1), Scripted::SameNonceSquatters(3), Scripted::LegacyTwoDials, Scripted::RepeatedIdTwoDials] {
+    for kind in [
+        Scripted::SameNonceSquatters(1),
+        Scripted::SameNonceSquatters(3),
+        Scripted::LegacyTwoDials,
+        Scripted::RepeatedIdTwoDials,
+        Scripted::LegacyTwoDialsInOrder,
+        Scripted::RepeatedIdTwoDialsInOrder,
+        Scripted::LegacyThreeDials,
+    ] {
         for seed in if thorough { (1u64..=8).collect::<Vec<_>>() } else { vec![1u64, 2, 3, 4] } {
             let mut c = cfg.clone();
             c.hash_seed = seed;
@@ -1448,6 +1530,60 @@ fn c20_spawn_race_body(max_delay: usize) -> vsched::Body {
     })
 }
 
+/// The real actor stops itself on the first of several casts that are under way to it through its remote
+/// reference; decision points before the registries' map operations let its exit land while the session is in
+/// the middle of routing the next cast. Afterwards the remote reference must be gone and refuse sends.
+fn c20_stop_race_body(casts: u32) -> vsched::Body {
+    with_rt(move || async move {
+        let t = two_nodes().await;
+        let plog: L = Arc::new(Mutex::new(vec![]));
+        let (p, ph) = Actor::spawn(Some("P".into()), Probe { log: plog.clone(), tag: "P", reply_delay_ms: 0 }, ()).await.expect("P");
+        ractor::pg::join("pub".into(), vec![p.get_cell()]);
+        dial(&t.a, &t.b, "pipe-ab", 0);
+        vsched::quiesce_time();
+        let mut bad = Vec::new();
+        let mut proxies: Vec<ActorCell> = Vec::new();
+        for n in [&t.a, &t.b] {
+            for (_, _, sess) in sessions(n).await {
+                proxies.extend(sess.get_children().into_iter().filter(|c| !c.get_id().is_local() && c.get_id().pid() == p.get_id().pid()));
+            }
+        }
+        if proxies.is_empty() {
+            bad.push(format!("no remote reference for the advertised actor: {:?}", t.events.lock().unwrap()));
+        }
+        vsched::explore_schedules(true);
+        for px in &proxies {
+            let r: ActorRef<Wire> = px.clone().into();
+            let _ = r.cast(Wire::Note(666, "die".into()));
+            for i in 0..casts {
+                let _ = r.cast(Wire::Note(i, "after".into()));
+            }
+        }
+        vsched::quiesce_time();
+        vsched::explore_schedules(false);
+        let _ = ph.await;
+        vsched::quiesce_time();
+        for px in &proxies {
+            if px.get_status() != ActorStatus::Stopped {
+                bad.push(format!("the original actor stopped itself but its remote reference {} is {:?}", px.get_id(), px.get_status()));
+            }
+            let r: ActorRef<Wire> = px.clone().into();
+            if r.cast(Wire::Note(99, "late".into())).is_ok() {
+                bad.push(format!("a send to the remote reference {} of a stopped actor was accepted", px.get_id()));
+            }
+        }
+        if ractor::pg::get_members(&"pub".to_string()).iter().any(|c| c.get_id().pid() == p.get_id().pid()) {
+            bad.push("a remote reference of the stopped actor is still a group member".into());
+        }
+        let key = format!("proxies={} handled={}", proxies.len(), plog.lock().unwrap().len());
+        for n in [t.a, t.b] {
+            n.server.stop(None);
+            let _ = n.handle.await;
+        }
+        Outcome { key, violations: bad }
+    })
+}
+
 pub fn c20_units(thorough: bool) -> Vec<Unit> {
     let cfg = cluster_cfg();
     let mut v = Vec::new();
@@ -1470,6 +1606,12 @@ pub fn c20_units(thorough: bool) -> Vec<Unit> {
         ..cfg.clone()
     };
     v.push(Unit::explore_split(Job::new("remote-spawn-race", fine, Some(if thorough { 2 } else { 1 }), c20_spawn_race_body(if thorough { 64 } else { 40 })), 16));
+    // the actor stops itself while more casts are under way to it (map-level decision points)
+    let fine2 = ExecCfg {
+        filter: Some(Arc::new(|k, l, t: &vsched::TaskInfo| k == vsched::PointKind::Map && matches!(l, "map.get" | "map.remove" | "map.iter") && t.role == "lib")),
+        ..cfg.clone()
+    };
+    v.push(Unit::explore_split(Job::new("remote-stop-race", fine2, Some(if thorough { 2 } else { 1 }), c20_stop_race_body(2)), 16));
     // timed-out calls with transit time: (latency, think time of the real actor, pause before the next call)
     let mut late = vec![(30u64, 80u64, 5u64), (30, 80, 30), (20, 60, 5), (10, 120, 5)];
     if thorough {
